@@ -202,6 +202,19 @@ func (w *World) projectOne() map[string]interface{} {
 			wlm["labelled"] = lf.LabelledFor(w, brm["rid"].(string))
 		}
 	}
+	if w.Cfg.Kind == "Deployment" {
+		// a Deployment's derived rollout-id is the pod-template-hash of its template: name it like the other kinds ("v2")
+		norm := func(m map[string]interface{}, f string) {
+			if x, ok := m[f].(string); ok && x != "" {
+				if r := RevOf(x); r > 0 && !strings.HasPrefix(x, "v") {
+					m[f] = fmt.Sprintf("v%d", r)
+				}
+			}
+		}
+		norm(rom, "rid")
+		norm(brm, "rid")
+		norm(brm, "obsRid")
+	}
 	out["wl"] = wlm
 	out["br"] = brm
 	out["net"] = w.projectNet()
